@@ -35,6 +35,14 @@ SUMMARY = {
  "C17-a": "token bucket capacity max(burst, refill quantum)",
  "C18-a": "credentials updated only when the runtime is parked in restore/next",
  "C19-a": "process map entry deleted after a successful Kill: second Kill / Terminate fail as unknown",
+ "C01-d": "request-id middleware compares ids case-insensitively: a submission with the id in another letter case consumes the runtime's state transition, the genuine answer is refused",
+ "C02-d": "same middleware change as C01-d (independently chosen): a refused submission has an effect",
+ "C05-d": "front end: the timeout branch falls through to the shared tail: timeout text followed by the response the runtime had already handed in",
+ "C06-d": "AwaitGateCondition returns success for a gate that is full although cancelled: exit while idle after a completed invocation -> empty success forever",
+ "C07-d": "cancelOnce re-armed in PreregisterRuntime instead of Clear: after one faulty generation CancelFlows is a no-op during the extension phase, the next stall wedges the emulator",
+ "C09-d": "ExternalAgent.Release skipped while the agent is Running: a SHUTDOWN subscriber busy with an event never gets its SHUTDOWN, is killed at the deadline",
+ "C12-d": "runtime event rendered with buffer.WriteTo (drains): a repeated /next returns the same id with an empty body",
+ "C18-d": "restore returns at once while init has not completed (extension still initialising) although the runtime is parked in restore/next",
  "C20-a": "error cause compacted only if the *incoming* document exceeded the limit (re-encoding grows it)",
 }
 
